@@ -5,6 +5,7 @@
 * `Histogram._child_samples`:    `if self._upper_bounds[0] >= 0:` (_sum)   -> histSumTest       (operator, operand order, constant, index)
 * `Counter.reset`, `Info.info`:  is `self._raise_if_not_observable()` the first statement?  -> counterResetChecksObservable,
                                  infoChecksObservable   (finding F7: today it is not, and a labelled parent raises AttributeError)
+* `Counter.reset`:               `self._value.set(0.0)` vs `set(0)`                         -> resetStoresFloat
 * `MetricWrapperBase.labels`:    the three guards before `if labelkwargs:` -> labelsCheckOrder  (in source order)
                                  `for l in self._labelnames` in the keyword branch -> kwargsValueOrder (declaration | call)
                                  `sorted(labelkwargs) != sorted(self._labelnames)`, `len(labelvalues) != len(self._labelnames)`
@@ -39,7 +40,7 @@ deriving Repr, DecidableEq
 '''
 
 DEFAULTS = dict(counter=('ne', True, 0), observe=('ne', True), hsum=('ne', True, 0, 0), checks=[], kworder='call',
-                kwnames='eq', poscount='eq', reset_checks=False, info_checks=False)
+                kwnames='eq', poscount='eq', reset_checks=False, info_checks=False, reset_float=False)
 
 
 def _emit(fails, v):
@@ -69,6 +70,9 @@ def _emit(fails, v):
     out += '/-- does `Counter.reset` / `Info.info` start with `self._raise_if_not_observable()`? -/\n'
     out += 'def counterResetChecksObservable : Bool := %s\n' % b(v['reset_checks'])
     out += 'def infoChecksObservable : Bool := %s\n' % b(v['info_checks'])
+    out += '/-- `Counter.reset`: is the stored zero the float `0.0` (true) or the int `0` (false)?  With an int the cell holds a\n'
+    out += 'Python int and later int amounts are added exactly instead of in floating point. -/\n'
+    out += 'def resetStoresFloat : Bool := %s\n' % b(v['reset_float'])
     return out + footer(TARGET)
 
 
@@ -176,8 +180,16 @@ def _first_is_observable_check(f):
 def site_reset(tree, v):
     f = find_func(tree, 'reset', cls='Counter')
     v['reset_checks'] = _first_is_observable_check(f)
-    if 'self._value.set(0)' not in [ast.unparse(n) for n in f.body]:
-        raise Fail('`self._value.set(0)` not found')
+    # self._value.set(<zero literal>): an int 0 makes the cell a Python int (later int amounts are then added exactly),
+    # a float 0.0 keeps the left-to-right floating-point sum
+    sets = [n.value for n in f.body if isinstance(n, ast.Expr) and isinstance(n.value, ast.Call)
+            and ast.unparse(n.value.func) == 'self._value.set']
+    if len(sets) != 1 or len(sets[0].args) != 1 or sets[0].keywords:
+        raise Fail('exactly one `self._value.set(<literal>)` expected')
+    lit = sets[0].args[0]
+    if not isinstance(lit, ast.Constant) or isinstance(lit.value, bool) or not isinstance(lit.value, (int, float)) or lit.value != 0:
+        raise Fail('`self._value.set(0)` / `set(0.0)` expected, got %s' % ast.unparse(sets[0]))
+    v['reset_float'] = isinstance(lit.value, float)
 
 
 def site_info(tree, v):
